@@ -49,6 +49,7 @@ def run(ck):
         else:
             ck.sample({"mechanism": "M2", "scenario": scn, "verdict": "ok"}, limit=3)
     m3(ck, em, rng, 48 if quick else 800)
+    fit_control(ck, em, rng, quick)
 
 
 def m3(ck, em, rng, count):
@@ -83,3 +84,93 @@ def m3(ck, em, rng, count):
             ck.violation("M3:TraceLoop:" + v, {"mechanism": "M3", "module": "TraceLoop", "trace": tr, "meta": me,
                                                "rejected_at_event": pos})
     ck.extra["m3_traces"] = len(trs)
+
+
+# ------------------------------------------------------------------ control flow of fit (specs/GmmFit.tla)
+def fit_control(ck, em, rng, quick):
+    """M1: which initialisation runs and how successive fit() calls compose; M2: every exported behaviour on the
+    real GMMMachine (threshold None, explicit k-means trainer so that the initialisation is reproducible)."""
+    from .. import mc, tlc
+
+    def model(name, dev=(), expect_violation=False):
+        text = mc.module("MC_GmmFit", ["GmmFit"], {"MC_Dev": mc.Expr("{" + ", ".join('"%s"' % d for d in dev) + "}")})
+        cfg = mc.cfg(consts={"Caps": mc.Expr("{0, 1, 2}"), "MaxCalls": 3}, subst={"Dev": "MC_Dev"},
+                     invariants=["InitOnlyWhenMeansUnset", "FitsCompose", "MapStartsFromPrior", "DefaultVariances"],
+                     constraints=[] if expect_violation else ["Export"])
+        r = tlc.run(ck.work, "MC_GmmFit", cfg, root_text=text, workers=4, coverage=not quick, expect_violation=expect_violation)
+        ck.account(name, r, expect_violation=expect_violation)
+        return r.records
+    recs = model("fit-control-flow")
+    for d in ("FIT_REINITIALISES_EVERY_CALL",):
+        model("deviation:" + d, dev=[d], expect_violation=True)
+    if quick and len(recs) > 60:
+        recs = rng.sample(recs, 60)
+    for rec in recs:
+        seed = rng.randrange(10 ** 6)
+        r = np.random.RandomState(seed)
+        X, init = gt.make_problem(r)
+        C = len(init["weights"])
+        caps = [h["cap"] for h in rec["hist"]]
+        first = rec["hist"][0]
+        user_means = first["means0"] == "user"
+        kinit = X[r.choice(len(X), size=C, replace=False)] + 0.01
+        prior = None
+        if rec["trainer"] == "map":
+            prior = em.GMMMachine(C)
+            prior.weights, prior.means, prior.variances = init["weights"], init["means"] + 0.5, init["variances"] * 1.3
+
+        def build(cap):
+            kw = dict(max_fitting_steps=cap, convergence_threshold=None, update_means=True, update_variances=True,
+                      update_weights=True)
+            if rec["trainer"] == "map":
+                m = em.GMMMachine(C, trainer="map", ubm=prior, **kw)
+            else:
+                m = em.GMMMachine(C, k_means_trainer=em.KMeansMachine(C, init_method=kinit.copy(), max_iter=2,
+                                                                    convergence_threshold=None), **kw)
+            if user_means:
+                m.means = np.array(init["means"])
+            if first["vars0"] == "user":
+                m.variances = np.array(init["variances"])
+            return m
+        ck.replayed += 1
+        ck.seen(["fit-control", rec])
+        scn = {"trainer": rec["trainer"], "means": "user" if user_means else "unset", "variances": first["vars0"],
+               "caps": caps, "seed": seed}
+        try:
+            m = build(caps[0])
+            for k in caps:
+                m.max_fitting_steps = k
+                m.fit(X)
+            ref = build(sum(caps))
+            ref.fit(X)
+        except Exception as e:
+            ck.violation("M2:GmmFit:Raised", {"mechanism": "M2", "module": "GmmFit", "scenario": scn,
+                                              "detail": "%s: %s" % (type(e).__name__, e)})
+            continue
+        if not gt.same_params(gt.params(m), gt.params(ref)):
+            ck.violation("M2:GmmFit:FitsCompose", {"mechanism": "M2", "module": "GmmFit", "scenario": scn,
+                                                   "detail": "fit() calls with caps %s on one object differ from one fit with cap %d "
+                                                             "from the same start" % (caps, sum(caps))})
+            continue
+        # provenance of the starting point: a fit with cap 0 shows what the initialisation produced
+        m0 = build(0)
+        m0.fit(X)
+        w0, mu0, v0 = gt.params(m0)
+        ok = True
+        if rec["trainer"] == "map":
+            ok = np.array_equal(mu0, init["means"] if user_means else prior.means) and \
+                np.array_equal(v0, np.maximum(init["variances"], m0.variance_thresholds) if first["vars0"] == "user" else prior.variances)
+            clause = "MapStartsFromPrior"
+        elif user_means:
+            ok = np.array_equal(mu0, init["means"]) and (np.array_equal(v0, np.ones_like(mu0)) if first["vars0"] == "ones"
+                                                         else np.array_equal(v0, np.maximum(init["variances"], m0.variance_thresholds)))
+            clause = "DefaultVariances"
+        else:
+            km_ = em.KMeansMachine(C, init_method=kinit.copy(), max_iter=2, convergence_threshold=None).fit(X)
+            ok = np.allclose(mu0, km_.centroids_, rtol=1e-12, atol=0)
+            clause = "InitOnlyWhenMeansUnset"
+        if not ok:
+            ck.violation("M2:GmmFit:" + clause, {"mechanism": "M2", "module": "GmmFit", "scenario": scn,
+                                                 "detail": "starting point of training: means %s variances %s" % (mu0.tolist(), v0.tolist())})
+        else:
+            ck.sample({"mechanism": "M2", "module": "GmmFit", "scenario": scn, "verdict": "ok"}, limit=9)
